@@ -110,15 +110,17 @@ CHECKS['C07'] = dict(
    technique='TLA+ protocol model checked by TLC + TLC trace validation of filter events against PipeAbs',
    design='4 (C07)')
 CHECKS['C01'] = dict(
-   text='TLC model-checks TaskPool (arena_slot spawn incl. pool relocation, get_task, steal_task: 1 owner x 2 thieves, access granularity, real pool size), '
-        'Mailbox (task_proxy two-sided claim, outbox push/pop), WaitTree (wait_context / reference_vertex forwarding over a 5-task tree) and PoolState '
-        '(no lost enqueued task). Every edge of the TaskPool state graph (100k edges) is replayed on a real arena_slot inside a real arena, head/tail/lock word '
-        'compared after every step (zero drift), Spawn/Got events validated (no task returned twice, none lost). Integrated scenarios (nested groups, tasks that '
-        'submit tasks to the waited group, enqueued and deferred task handles, run_and_wait, execute) on 2-4 logical threads of all-reserved arenas under '
-        'seeded random cooperative schedules over every scheduler atomic are validated by TLC against SchedAbs (exactly once; the wait covers all work and sees its writes).',
-   note='edge-complete replay only for the TaskPool instance; Mailbox/WaitTree/PoolState bound to the code through the integrated scenarios only; RML worker entry/leave not covered (all-reserved arenas); interleavings needing >4 threads not explored',
+   text='TLC model-checks TaskPool and TaskPoolIso (arena_slot spawn incl. relocation of the pool in prepare_task_pool, get_task / get_task_impl with isolation: skipped tasks, '
+        're-publication of the skipped range, holes; steal_task with isolation and roll-back; 1 owner x 2 thieves, one label per shared access, real pool size 64), Mailbox '
+        '(task_proxy two-sided claim, outbox push/pop), WaitTree (wait_context / reference_vertex forwarding over a 5-task tree) and PoolState (no lost enqueued task). Every edge of '
+        'three TaskPool / TaskPoolIso state graphs (100 k + 105 k + 184 k edges in the quick tier, 380 k more in thorough) is replayed on a real arena_slot inside a real arena with '
+        '(head, tail, lock word) compared after every step (zero drift on the current tree), and the Spawn/Got events are validated by TLC (no task returned twice, none lost). '
+        'Integrated scenarios (nested groups, tasks that submit tasks to the waited group, enqueued and deferred task handles, run_and_wait, execute) on 2-4 logical threads of '
+        'all-reserved arenas under seeded random / PCT cooperative schedules over every scheduler atomic are validated by TLC against SchedAbs (exactly once; the wait covers all work '
+        'and sees its writes).',
+   note='edge-complete replay for the TaskPool / TaskPoolIso instances; Mailbox / WaitTree / PoolState are bound to the code through the integrated scenarios only (TaskStream is replayed under C02); interleavings needing >4 threads are not explored',
    technique='PlusCal protocol specs checked by TLC, edge-complete replay into the real arena_slot, TLC trace validation against SchedAbs',
-   design='4 (C01)')
+   design='4 (C01), 8')
 CHECKS['C20'] = dict(
    text='TLC model-checks Suspend (the m_stack_state hand-shake between the suspending thread, a resumer and a third dispatching thread): at most one '
         'continuation, only after resume, only after the stack was left, and eventually exactly one under weak fairness. Real tbb::task::suspend/resume '
@@ -146,7 +148,9 @@ CHECKS['C02'] = dict(
         'under sequential consistency and under x86-TSO with the client store buffered, for 1-2 sleepers x 1-2 notifiers, plus termination of every sleeper under '
         'weak fairness; the full fences the protocol relies on are facts observed on the running code (hook stream of prepare_wait / notify_one / notify_all) and fed '
         'into the TSO model, a model without the notifier fence is the vacuity control; PoolState (advertise_new_work vs out_of_work, busy state) and Demand '
-        '(thread_request_serializer pending-delta aggregator: no lost delta, estimate = min(limit, total)). Real blocking calls - raw concurrent_monitor '
+        '(thread_request_serializer pending-delta aggregator: no lost delta, estimate = min(limit, total)); TaskStream (the container of enqueued tasks: lanes under try-locked '
+        'mutexes and the population mask; no task handed out twice, none stranded in an unadvertised lane) of which every edge (298 k) is replayed on the real task_stream with the '
+        'population word and the lane mutex flags compared after every step. Real blocking calls - raw concurrent_monitor '
         '(notify_all / notify_one / notify(pred) / abort_all), bounded queue push/pop, tbb::mutex, rw_mutex incl. upgrade, task_group::wait of an external thread, '
         'task_arena::execute without a free slot, a suspended task resumed from a foreign thread, and enqueue-only programs with real RML worker threads (which are '
         'logical threads of the cooperative scheduler as well: arenas of concurrency 1 / 2, zero-worker soft limit via global_control, two arenas) - run on logical '
@@ -183,7 +187,9 @@ CHECKS['C14'] = dict(
    technique='TLA+ abstract specification + TLC trace validation of recorded executions of real flow graphs under a cooperative scheduler',
    design='4 (C14)')
 CHECKS['C15'] = dict(
-   text='TLC model-checks Limiter (limiter_node critical sections with my_count / my_tries / my_future_decrement, reserve / consume on the predecessor queue, early '
+   text='TLC checks ItemBuffer (function-level spec of item_buffer / reservable_item_buffer and the sequencer placement: ring head / tail / capacity, per-slot state, growth with '
+        're-placement, front reservation) and every transition of its state graphs (16 k + 216 k) is replayed on the real reservable_item_buffer<int>, the whole ring compared after each '
+        'operation and the returned values validated by TLC against BufAbs (FIFO, sequencer position, nothing lost on release, nothing consumed twice). TLC model-checks Limiter (limiter_node critical sections with my_count / my_tries / my_future_decrement, reserve / consume on the predecessor queue, early '
         'decrements, 2-3 concurrent forwarders, thresholds 1-2): un-decremented forwarded messages never exceed the threshold, FIFO, no duplicate. The ordering clauses of '
         'FlowAbs - queue_node: a message put after another put had returned is not forwarded before it; sequencer_node: exactly 0,1,2,... in order; limiter_node: forwarded '
         'minus decremented stays within the threshold; priority_queue_node: nothing that was buffered when the serial sink asked for its next item beats the item it gets; '
@@ -193,7 +199,7 @@ CHECKS['C15'] = dict(
         'permutations, thresholds 1 and 2 with the decrement sent from the successor body, ports of unequal length) and observed at a serial sink, under seeded random / PCT '
         'cooperative schedules.',
    note='schedules sampled; buffer_node (unordered) and key_matching with more than two ports are not driven; item_buffer ring arithmetic is exercised through queue / sequencer / priority nodes only',
-   technique='TLA+ protocol model (Limiter) checked by TLC + TLC trace validation of recorded executions of real flow-graph nodes against FlowAbs',
+   technique='TLA+ function spec (ItemBuffer) with transition-complete replay on the real class + protocol model (Limiter) checked by TLC + TLC trace validation of recorded executions of real flow-graph nodes against FlowAbs / BufAbs',
    design='4 (C15)')
 CHECKS['C17'] = dict(
    text='TLC checks SizeClass (transcription of getSmallObjectIndex / getIndexOrObjectSize) for every request size 1..8128: object size >= request, bins and sizes monotone, one '
